@@ -42,7 +42,8 @@ Chunks ==
        \cup (IF Budget THEN {<<91>>, <<123>>} \cup PoorChunks \cup (IF Rich THEN RichChunks \cup {Quote} ELSE {}) ELSE {})
 
 Final == JsEnd(s)
-Terminal == s.st # "run" \/ (JsBetween(Final) /\ Final.done >= 1 /\ s.tk # "str") \/ Len(doc) >= MaxLen
+Terminal == IF Mode = "any" THEN Len(doc) >= MaxLen ELSE
+  s.st # "run" \/ (JsBetween(Final) /\ Final.done >= 1 /\ s.tk # "str") \/ Len(doc) >= MaxLen
 
 IsItemChunk(c) == ~InRichString /\ c \notin ({<<93>>, <<125>>, <<44>>, <<58>>} \cup WsChunks)
 IsRichChunk(c) == ~InRichString /\ (c \in RichChunks \/ c = Quote) /\ c \notin PoorChunks
@@ -53,7 +54,7 @@ Next ==
   /\ \E c \in Chunks :
        LET t == JsRun(s, c) IN
        /\ Len(t.ctx) <= MaxDepth
-       /\ (t.st = "run" \/ rich = 0 \/ InRichString)   \* one-step violations only after poor prefixes
+       /\ (Mode = "any" \/ t.st = "run" \/ rich = 0 \/ InRichString)   \* one-step violations only after poor prefixes
        /\ doc' = doc \o c
        /\ s' = t
        /\ items' = IF IsItemChunk(c) THEN items + 1 ELSE items
@@ -64,7 +65,7 @@ Spec == Init /\ [][Next]_vars
 
 Class == JsClass(s)
 Report ==
-  Terminal /\ (Class # "incomplete" \/ EmitIncomplete) =>
+  (IF Mode = "any" THEN doc # <<>> ELSE Terminal) /\ (Class # "incomplete" \/ EmitIncomplete) =>
     PrintT(ToJson([doc |-> doc, class |-> Class, why |-> Final.why]))
 
 \* ---- properties of the reference automaton itself -------------------------
